@@ -158,8 +158,36 @@ def fold(n, env=None):
     return None
 
 
+class TLDict:
+    """a dict per thread (the variant and architecture files are parsed by a thread pool)"""
+
+    def __init__(self, init):
+        import threading
+        self._init, self._tl = init, threading.local()
+
+    def _d(self):
+        if not hasattr(self._tl, "d"):
+            import copy
+            self._tl.d = copy.deepcopy(self._init)
+        return self._tl.d
+
+    def __getitem__(self, k): return self._d()[k]
+    def __setitem__(self, k, v): self._d()[k] = v
+    def __contains__(self, k): return k in self._d()
+    def __iter__(self): return iter(self._d())
+    def __len__(self): return len(self._d())
+    def keys(self): return self._d().keys()
+    def items(self): return self._d().items()
+    def get(self, k, dflt=None): return self._d().get(k, dflt)
+    def pop(self, k, *a): return self._d().pop(k, *a)
+    def setdefault(self, k, v): return self._d().setdefault(k, v)
+    def clear(self): self._d().clear()
+
+    def update(self, *a, **kw): self._d().update(*a, **kw)
+
+
 # local pointer aliases of a parameter, substituted while printing (set by pointer_aliases())
-RENAME = {}
+RENAME = TLDict({})
 
 
 def pointer_aliases(fn):
@@ -212,7 +240,7 @@ def if_parts(s):
 # ---- normal form of small C functions (alloc.c): single-assignment locals are replaced by their initialisers and calls of
 # small static helpers by the helper's body, so that the printed form does not depend on how the code is cut into locals
 # and helpers.  NF["fns"] = the file's functions; NF["on"] switches the mode on inside nf_of().
-NF = {"on": False, "fns": {}, "written": set(), "depth": 0, "loaded": [], "stale": False}
+NF = TLDict({"on": False, "fns": {}, "written": set(), "depth": 0, "loaded": [], "stale": False})
 
 
 def written_names(fn):
